@@ -11,10 +11,10 @@
 (* value in 32-bit integers.  The window of the statement is               *)
 (* -2^15 <= hi < 2^15.                                                     *)
 (*   monitor (NtpTimeTrace_mon.cfg): the property section of NtpTime       *)
-(*   strict  (NtpTimeTrace_strict.cfg / _strictrep.cfg): the real results  *)
-(*           equal the transcription at the real constants (evaluated by   *)
-(*           the driver's parametric evaluator), with forward-only /       *)
-(*           repaired era unfolding                                        *)
+(*   strict  (NtpTimeTrace_strict.cfg): the real results equal the         *)
+(*           transcription at the real constants (evaluated by the driver's*)
+(*           parametric evaluator); _strictfwd.cfg: the same for the old   *)
+(*           forward-only era unfolding (only used to word a DRIFT line)   *)
 (*   eval    (NtpTimeTrace_eval.cfg): that evaluator equals NtpTime's      *)
 (*           operators on the complete table at the scaled constants       *)
 (***************************************************************************)
